@@ -57,7 +57,11 @@ SOURCES["v7"] = dict(SOURCES["v3"], **{"typeshare.toml": '[swift]\ndefault_decor
 SOURCES["v8"] = {"app/src/lib.rs": "use facade::Shared;\nuse beta::Extra;\n#[typeshare]\npub struct App { pub s: Shared, pub e: Extra }\n",
                  "alpha/src/lib.rs": "#[typeshare]\npub struct Shared { pub a: u32 }\n",
                  "beta/src/lib.rs": "#[typeshare]\npub struct Shared { pub b: u32 }\n#[typeshare]\npub struct Extra { pub x: u32 }\n",
-                 "facade/src/lib.rs": "pub use alpha::Shared;\n#[typeshare]\npub struct FacadeOwn { pub f: u32 }\n"}
+                 "facade/src/lib.rs": "pub use alpha::Shared;\n#[typeshare]\npub struct FacadeOwn { pub f: u32 }\n",
+                 # ... under a configuration whose mapping tables have several entries, one of them for a type that another crate of the
+                 # workspace shares and this one imports (Extra): whether the import is written is decided the same way in every process
+                 "typeshare.toml": "".join(f'[{l}.type_mappings]\n"Extra" = "{t}"\n"Unused1" = "{t}"\n"Unused2" = "{t}"\n"Unused3" = "{t}"\n"Unused4" = "{t}"\n'
+                                           for l, t in (("kotlin", "String"), ("typescript", "string"), ("swift", "String"), ("scala", "String"), ("go", "string"), ("python", "str")))}
 
 
 # v9 = v1 plus one more type that sorts last in its output file (MC_Writer!MCExtends: v1's output is a proper prefix of v9's)
@@ -201,9 +205,9 @@ def run(chk):
         return lang, mode, events, meta
 
     with cf.ThreadPoolExecutor(max_workers=8) as ex:
-        # quick: Python only in folder mode (the backend with the most state kept across the modules of one run)
+        # quick: Python and Kotlin only in folder mode (the backends with the most state kept across the modules of one run / with import lines)
         futs = [ex.submit(do_config, lang, mode) for lang in langs for mode in ("single", "multi")] + \
-               ([] if thorough else [ex.submit(do_config, "python", "multi")])
+               ([] if thorough else [ex.submit(do_config, "python", "multi"), ex.submit(do_config, "kotlin", "multi")])
         configs = [f.result() for f in futs]
     for lang, mode, hist, msg in refusals[:20]:
         chk.refused(f"{lang}/{mode}/{hist[-1]}", f"{lang} {mode}: after history {hist}: {msg}", {"lang": lang, "mode": mode, "history": hist})
